@@ -106,7 +106,7 @@ func (m *MonC01) check(where string, idx int, pre, post *Snap, ev *ParsedEvents,
 			return
 		}
 		if !delta.Equal(want) {
-			if delta.Equal(want.Add(strandedNow)) && strandedNow.IsPositive() && (m.strandedCause(pre, ev) || (m.slashStranded[d].IsPositive() && strandedNow.LTE(m.slashStranded[d]))) {
+			if delta.Equal(want.Add(strandedNow)) && strandedNow.IsPositive() && (m.strandedCause(pre, ev) || (intOf(m.slashStranded, d).IsPositive() && strandedNow.LTE(intOf(m.slashStranded, d)))) {
 				m.stranded[d] = cur.Add(strandedNow)
 				rep.KnownFinding("C01", "stranded-rewards", "%s: %s%s withdrawn for a validator without delegator shares stays in custody (not forwarded to the rewards pool)", where, strandedNow, d)
 				rep.Class("C01.stranded")
@@ -1150,4 +1150,11 @@ func zeroStakedWeight(s *Snap, v *ValSnap) bool {
 		total = total.Add(a.RewardWeight.Mul(valTokens).QuoInt(a.TotalTokens))
 	}
 	return total.IsZero()
+}
+
+func intOf(m map[string]math.Int, k string) math.Int {
+	if v, ok := m[k]; ok && !v.IsNil() {
+		return v
+	}
+	return math.ZeroInt()
 }
